@@ -45,6 +45,12 @@ static void collectGlobals(const Value* v, std::set<const Value*>& seen) {
     if (auto* f = dyn_cast<Function>(v)) { refFuncs.insert(f); return; }
     if (auto* c = dyn_cast<Constant>(v)) for (auto& o : c->operands()) collectGlobals(o.get(), seen);
 }      // functions whose body is skipped
+// __cxa_throw is emitted as a bare throw event (see emitCall): its operands (type_info, destructor) are not referenced
+static bool isCxaThrow(const Instruction& I) {
+    auto* cb = dyn_cast<CallBase>(&I); if (!cb) return false;
+    const Function* c = cb->getCalledFunction();
+    return c && c->getName() == "__cxa_throw" && !aliases.count("__cxa_throw");
+}
 static const DataLayout* DL;
 static bool atomicHook = false;   // module defines verif_atomic_load64
 static int anonCnt = 0;
@@ -311,6 +317,8 @@ static bool skipIntrinsic(const Function* f) {
 static void emitCall(FuncCtx& fc, std::ostringstream& out, const CallBase* cb) {
     const Function* callee = cb->getCalledFunction();
     if (skipIntrinsic(callee)) return;
+    // __cxa_throw: the throw event already happened at __cxa_allocate_exception; do not reference type_info objects / destructors
+    if (callee && callee->getName() == "__cxa_throw" && !aliases.count("__cxa_throw")) { out << "  __ir_throw0();\n"; return; }
     std::string lhs;
     if (!cb->getType()->isVoidTy()) lhs = val(fc, cb) + " = ";
     std::vector<std::string> args;
@@ -452,7 +460,14 @@ static void emitFunction(const Function& F, bool protoOnly = false) {
                 case Instruction::And: e = op(0) + " & " + op(1); break;
                 case Instruction::Or:  e = op(0) + " | " + op(1); break;
                 case Instruction::Xor: e = op(0) + " ^ " + op(1); break;
-                case Instruction::Shl: e = U(0) + " << " + op(1); break;
+                case Instruction::Shl: {
+                    // "shl nsw x, C" is how -O1 writes the signed multiplication x * 2^C: keep it a signed
+                    // multiplication so that the overflow check sees the UB of the C++ source
+                    auto* ci = dyn_cast<ConstantInt>(bo->getOperand(1));
+                    if (nsw && b >= 32 && ci && ci->getZExtValue() + 2 <= b)
+                        e = "(" + T + ")(" + S(0) + " * ((" + std::string(b == 32 ? "int32_t" : "int64_t") + ")1 << " + std::to_string(ci->getZExtValue()) + "))";
+                    else e = U(0) + " << " + op(1);
+                    break; }
                 case Instruction::LShr: e = U(0) + " >> " + op(1); break;
                 case Instruction::AShr: e = "(" + T + ")(" + S(0) + " >> " + op(1) + ")"; break;
                 default: die("binop");
@@ -814,18 +829,18 @@ int main(int argc, char** argv) {
             if (!done.insert(f).second) continue;
             reach.insert(f);
             if (stubFuncs.count(f->getName().str())) continue;
-            for (auto& BB : *f) for (auto& I : BB) for (auto& U : I.operands()) {
+            for (auto& BB : *f) for (auto& I : BB) { if (isCxaThrow(I)) continue; for (auto& U : I.operands()) {
                 const Value* v = U.get()->stripPointerCasts();
                 if (auto* g = dyn_cast<Function>(v)) {
                     auto al = aliases.find(g->getName().str());
                     if (al != aliases.end()) g = fnByName[al->second];
                     if (!done.count(g)) work.push_back(g);
                 }
-            }
+            } }
         }
         std::set<const Value*> seen;
         for (auto* F : reach) { if (stubFuncs.count(F->getName().str())) continue;
-            for (auto& BB : *F) for (auto& I : BB) for (auto& U : I.operands()) if (isa<Constant>(U.get())) collectGlobals(U.get(), seen); }
+            for (auto& BB : *F) for (auto& I : BB) { if (isCxaThrow(I)) continue; for (auto& U : I.operands()) if (isa<Constant>(U.get())) collectGlobals(U.get(), seen); } }
     };
     for (auto& kv : aliases) roots.insert(kv.second);
     closure();
